@@ -19,9 +19,11 @@
                   carried one single version in snapshot, product, cluster, cluster conf and backend
    view = [snap p c cc b g st]: version of the request's snapshot object (file version of req.SvrDataConf), of the product,
           cluster name, cluster conf entry and backend cluster seen so far (0 = not yet), backend generation, status (0 = in flight).
-   Any malformed input or illegal op order -> VErr 0. *)
+   Any malformed input or illegal op order -> VErr 0.
+   A second kind of input, [100 [op ...]], exercises the hot reload of the TLS tables (certificates, TLS rules): see
+   model/SnapshotTlsWire.v. *)
 From Coq Require Import List ZArith Bool.
-From Bfe Require Import lib.Val model.Snapshot.
+From Bfe Require Import lib.Val model.Snapshot model.SnapshotTls model.SnapshotTlsWire.
 Import ListNotations.
 Open Scope Z_scope.
 
@@ -174,10 +176,11 @@ Fixpoint exec_ops (h : hstate) (ops : list hop) {struct ops} : option (list val)
   end.
 
 Definition run_C15 (i : val) : val :=
+  match decode_tls i with Some tops => run_tls tops | None =>
   match decode_C15 i with
   | Some ops => match exec_ops h_init ops with Some l => VL l | None => VErr 0 end
   | None => VErr 0
-  end.
+  end end.
 
 Definition agree_C15 (i o : val) : bool := val_eqb (run_C15 i) o.
 
@@ -247,6 +250,9 @@ Fixpoint prop_ops (p : pstate) (ops : list hop) (vs : list val) {struct ops} : b
 
 (* inputs that are malformed or whose op order is illegal say nothing about the property: they are answered VErr 0 *)
 Definition prop_C15 (i o : val) : bool :=
+  match decode_tls i with
+  | Some tops => match o with VL vs => prop_tls 1 1 tops vs | _ => false end
+  | None =>
   match decode_C15 i with
   | Some ops =>
     match o with
@@ -255,6 +261,6 @@ Definition prop_C15 (i o : val) : bool :=
     | _ => false
     end
   | None => val_eqb o (VErr 0)
-  end.
+  end end.
 
 Definition kf_C15 (i : val) : Z := 0.
